@@ -151,6 +151,13 @@ def adjointDefect {n k : Nat} (T : Vector (Vec K k) n) (Tinv : Vector (Vec K n) 
     (j : Fin k) (i : Fin n) : K :=
   Tinv[j][i] - mu * (T[i][j] * w[i])
 
+/-- `get_transformation_matrix_forward()` (= `…_backward()`): `np.eye(n) − T.dot(coeffs[:, None] * T⁺)`,
+the matrix the object reports for itself (with the row-wise broadcast of D109). -/
+def perfectMatrix {n k : Nat} (T : Vector (Vec K k) n) (Tinv : Vector (Vec K n) k) (c : Vec K k) :
+    Vector (Vec K n) n :=
+  Vector.ofFn fun i => Vector.ofFn fun i' =>
+    (if i = i' then 1 else 0) - dot T[i] (Vector.ofFn fun j => c[j] * Tinv[j][i'])
+
 /-- `total_power` of one real component: `Σ w_i E_i²`. -/
 def powerW {n : Nat} (w E : Vec K n) : K := Fin.foldl n (fun acc i => acc + w[i] * (E[i] * E[i])) 0
 
